@@ -110,12 +110,15 @@ def single_layer_export(args):
     from plinio.methods import PIT
     torch.manual_seed(seed)
 
+    stride = 1 + seed % 2
+    T_out = (10 - 1) // stride + 1
+
     class Net(nn.Module):
         def __init__(self):
             super().__init__()
             self.pad = nn.ConstantPad1d(((K - 1) * d0, 0), 0.)
-            self.c = nn.Conv1d(2, 3, K, dilation=d0)
-            self.fc = nn.Linear(3 * 10, 2)
+            self.c = nn.Conv1d(2, 3, K, dilation=d0, stride=stride)
+            self.fc = nn.Linear(3 * T_out, 2)
 
         def forward(self, x):
             return self.fc(torch.flatten(torch.relu(self.c(self.pad(x))), 1))
@@ -136,6 +139,30 @@ def single_layer_export(args):
             out['diff'] = None if (y.shape == ye.shape and float((y - ye).abs().max()) <= 2e-4 * max(1.0, float(y.abs().max()))) \
                 else ('shape %s vs %s' % (tuple(y.shape), tuple(ye.shape)) if y.shape != ye.shape else 'max abs diff %.3g' % float((y - ye).abs().max()))
             out['summary'] = (pit.summary()['c']['kernel_size'], pit.summary()['c']['dilation'])
+            # integer execution: small integer weights, bias and input; the outputs of the PIT layer and of
+            # the exported Conv1d (captured by hooks) are exact integers, compared with the executable
+            # model functions maskedConvAt / exportedConvAt (Drivers/PITTime.lean `conv`)
+            import random as _r
+            rg = _r.Random(seed)
+            with torch.no_grad():
+                wi = torch.tensor([rg.randint(-3, 3) for _ in range(layer.weight.numel())], dtype=torch.float32).reshape(layer.weight.shape)
+                bi = torch.tensor([float(rg.randint(-2, 2)) for _ in range(3)])
+                layer.weight.copy_(wi)
+                layer.bias.copy_(bi)
+                xi = torch.tensor([[[float(rg.randint(-3, 3)) for _ in range(10)] for _ in range(2)]])
+                cap = {}
+                h1 = layer.register_forward_hook(lambda m, i, o: cap.__setitem__('pit', o.detach().clone()))
+                pit(xi)
+                h1.remove()
+                ei = pit.export().eval()
+                h2 = ei.c.register_forward_hook(lambda m, i, o: cap.__setitem__('exp', o.detach().clone()))
+                ei(xi)
+                h2.remove()
+            out['int'] = {'stride': stride, 'T': T_out,
+                          'w': [[int(v) for v in wi[co, ci]] for co in range(3) for ci in range(2)],
+                          'b': [int(v) for v in bi], 'x': [[int(v) for v in xi[0, ci]] for ci in range(2)],
+                          'pit': [[int(v) for v in cap['pit'][0, co]] for co in range(3)],
+                          'exp': [[int(v) for v in cap['exp'][0, co]] for co in range(3)]}
             with torch.no_grad():
                 w = layer.weight
                 w.copy_(torch.arange(w.numel(), dtype=torch.float32).reshape(w.shape))
